@@ -290,6 +290,15 @@ def f29(mod, plan, viol):
             'only REAL digits beyond the 12th differ' in str(viol.get('detail', {}).get('why', '')))
 
 
+@classifier('f35_untyped_constructed_string_keeps_constructed_tag')
+def f35(mod, plan, viol):
+    """F35: a string decoded WITHOUT a type from its constructed form (an element of a component-less SEQUENCE/SET, or
+    schemaless decoding) keeps the constructed bit of the identifier octet in its own tagSet; the encoders then emit
+    that identifier in front of primitive content (23 01 00), which no decoder accepts."""
+    return (viol['sig'][0] in ('reencoding-not-decodable', 'reencoding-decodes-to-other-value')
+            and bool(viol.get('detail', {}).get('result_has_constructed_string_tag')))
+
+
 @classifier('f26_real_not_encodable')
 def f26(mod, plan, viol):
     from simkit import universe as U
